@@ -12,10 +12,10 @@ sys.path.insert(0, HERE)
 
 FAMILIES = {
     "graph": ("fam_graph", ["C01", "C04", "C05", "C07", "C08", "C09", "C20"]),
-    "incr": ("fam_incr", ["C02", "C03", "C05", "C12", "C13", "C15", "C18"]),
+    "incr": ("fam_incr", ["C02", "C03", "C04", "C05", "C12", "C13", "C15", "C18"]),
     "clean": ("fam_clean", ["C12", "C08", "C15"]),
     "config": ("fam_config", ["C09", "C13", "C14", "C19", "C18"]),
-    "live": ("fam_live", ["C01", "C04", "C06", "C07", "C08", "C10", "C11", "C15", "C16"]),
+    "live": ("fam_live", ["C01", "C04", "C06", "C07", "C08", "C10", "C11", "C13", "C15", "C16", "C20"]),
 }
 
 
